@@ -4,7 +4,7 @@
    Codes: 0 ok, 1 implementation differs from the model, 2 the reported
    description is not an exact description of the schema (Spec). *)
 From Coq Require Import List NArith ZArith Bool String.
-From GQL Require Export Base.Bytes Types.Schema Types.Consistent Types.Introspection.
+From GQL Require Export Base.Bytes Types.Schema Types.Consistent Types.Literal Types.Introspection.
 Import ListNotations.
 Open Scope N_scope.
 
@@ -14,9 +14,11 @@ Definition h := unhex.
 Inductive subq := SubQ (tid : N) (include_deprecated : bool) (fields : option (list name)) (enums : option (list name)) (typename : name).
 
 Inductive c10case :=
-| IntroCase (full : bool) (c : config) (appended : list tref) (D : decor) (r : description) (subs : list subq).
+| IntroCase (full : bool) (c : config) (appended : list tref) (D : decor) (r : description) (ordered : bool) (subs : list subq).
     (* the full introspection query, and sub-queries on single types; full = false: the library's own
-       types (ids below 100) are left out of the reported description and of the decorations *)
+       types (ids below 100) are left out of the reported description and of the decorations;
+       ordered: types, the fields of every type and its input fields came in name order (r itself
+       carries every list in name order: the property fixes no order, the library does) *)
 
 Definition built (c : config) (appended : list tref) : option view :=
   match new_schema (with_meta c) with
@@ -48,13 +50,13 @@ Definition check_sub (V : view) (D : decor) (q : subq) : bool :=
 
 Definition check (c : c10case) : N :=
   match c with
-  | IntroCase full c app D r subs =>
+  | IntroCase full c app D r ordered subs =>
     match built c app with
     | None => 1
     | Some V =>
       let e := restrict full V (describe V D) in
       if negb (matches true (v_types V) D e r && forallb (check_sub V D) subs) then 2
-      else if matches false (v_types V) D e r then 0 else 1
+      else if matches false (v_types V) D e r && ordered then 0 else 1
     end
   end.
 
